@@ -520,7 +520,7 @@ def _check_polarizer(case, ctx):
     U.check_close(Pb @ Pb, Pb, _tol(1e-12, prec), 'linear_polarizer:idempotent', 'P(%r)^2 vs P' % t, atol=_tol(1e-13, prec))
     e = np.array([math.cos(phi), math.sin(phi)], dtype=complex)
     I = float(np.sum(np.abs(P @ e) ** 2))
-    ctx.require(abs(I - math.cos(t - phi) ** 2) <= _tol(1e-12, prec) + 4 * float(np.spacing(abs(t) + abs(phi))), 'linear_polarizer:malus',
+    ctx.within(abs(I - math.cos(t - phi) ** 2), _tol(1e-12, prec) + 4 * float(np.spacing(abs(t) + abs(phi))), 'linear_polarizer:malus',
                 'polariser at %r rad, linear input at %r rad: transmitted %.17g, cos^2 = %.17g' % (t, phi, I, math.cos(t - phi) ** 2))
     v = np.asarray(ctx.call(pol.linear_pol_vector, math.degrees(phi)))
     U.check_close(v, e, _tol(1e-12, prec), 'linear_pol_vector', 'linear_pol_vector(%r deg)' % math.degrees(phi), atol=_tol(1e-13, prec) + 4 * float(np.spacing(abs(phi))))
@@ -532,7 +532,7 @@ def _check_polarizer(case, ctx):
     vd = np.asarray(ctx.call(pol.linear_pol_vector, math.degrees(phi), degrees=on))
     U.check_close(vd, e, _tol(1e-12, prec), 'linear_pol_vector', 'linear_pol_vector(%r deg, degrees=%r)' % (math.degrees(phi), on), atol=_tol(1e-13, prec) + 4 * float(np.spacing(abs(phi))))
     I2_ = float(np.sum(np.abs(P @ vr) ** 2))
-    ctx.require(abs(I2_ - math.cos(t - phi) ** 2) <= _tol(1e-11, prec) + 4 * float(np.spacing(abs(t) + abs(phi))), 'linear_polarizer:malus',
+    ctx.within(abs(I2_ - math.cos(t - phi) ** 2), _tol(1e-11, prec) + 4 * float(np.spacing(abs(t) + abs(phi))), 'linear_polarizer:malus',
                 'Malus with linear_pol_vector: %.17g vs %.17g' % (I2_, math.cos(t - phi) ** 2))
     U.check_close(P, rot(-t) @ np.diag([1, 0]) @ rot(t), _tol(1e-12, prec), 'linear_polarizer:closed-form', 'P(%r)' % t, atol=_tol(1e-13, prec))
     # diattenuator
@@ -711,14 +711,14 @@ def _check_mueller(case, ctx):
         m00 = 0.5 * float(np.sum(np.abs(W1[idx]) ** 2))
         if m00 > 0:
             ea, eb = U.relerr(one, mueller_ref(W1[idx], 1)), U.relerr(one, mueller_ref(W1[idx], -1))
-            ctx.require(min(ea, eb) <= rt, 'jones_to_mueller:definition',
+            ctx.within(min(ea, eb), rt, 'jones_to_mueller:definition',
                         'M differs from tr(s_i J s_j J^H)/2 in both handedness conventions (rel err %.3g / %.3g) for J=%r' % (ea, eb, W1[idx].tolist()))
             if abs(ea - eb) > 1e3 * rt:
                 hands.add(1 if ea < eb else -1)
         else:
             ctx.require(not np.any(one), 'jones_to_mueller:definition', 'Mueller matrix of the zero Jones matrix is %r' % one.tolist())
         tol00 = rt * max(1, m00) if (e1, e2) == (0, 0) or 'scale' not in case else rt * m00
-        ctx.require(abs(one[0, 0] - m00) <= tol00, 'jones_to_mueller:M00', 'M00=%r, sum|J|^2/2=%r' % (one[0, 0], m00))
+        ctx.within(abs(one[0, 0] - m00), tol00, 'jones_to_mueller:M00', 'M00=%r, sum|J|^2/2=%r' % (one[0, 0], m00))
     ctx.require(len(hands) <= 1, 'jones_to_mueller:definition', 'handedness convention differs between elements of one batch')
     if case.get('flags', True):
         # the whole batch with the flag spelled as a truthy object that is not True
